@@ -152,6 +152,7 @@ def run(ctx, replay=None):
     else:
         mc = [dict(shape=s, max_env=3, invariants=inv, properties=["KeysKept"]) for s in ("chain", "star", "two")]
         ex = [dict(shape="chain", max_env=3, flags="m,c,o", extra="a", faults=False),
+              dict(shape="deep", max_env=2, flags="m,c,o", extra="a", faults=False),
               dict(shape="star", max_env=2, flags="m,c,o", extra="a", faults=True),
               dict(shape="chain", max_env=0, flags="m,c,o,e", extra="a", faults=True, random_walks=30000, walk_len=12,
                    env="Edit,Touch,DeleteArt,Truncate,StripKey,ResaveArt,Replace,MakeCsr,EditProfile,Expire,SetIssuer,RemoveConfig,AddConfig,SetProfile")]
